@@ -119,6 +119,7 @@ class Contract:
     max_paths = 400
     pure = True  # frame: does not write to argument storage
     frame_attrs = None  # methods: attributes of `self` the call may create / rebind (None = unchecked)
+    functional = False  # havoc() returns exactly the specified result: stubs need not assume ensures()
 
     # --- to be provided by subclasses
     def configs(self, tier):
@@ -189,9 +190,23 @@ class Patches:
         self.saved.append((d, name, d.get(name, missing), missing))
         d[name] = value
 
+    def set_attr(self, obj, name, value):
+        missing = object()
+        old = obj.__dict__.get(name, missing)
+        self.saved.append((("attr", obj), name, old, missing))
+        setattr(obj, name, value)
+
     def restore(self):
         for d, name, old, missing in reversed(self.saved):
-            if old is missing:
+            if isinstance(d, tuple) and d[0] == "attr":
+                if old is missing:
+                    try:
+                        delattr(d[1], name)
+                    except AttributeError:
+                        pass
+                else:
+                    setattr(d[1], name, old)
+            elif old is missing:
                 d.pop(name, None)
             else:
                 d[name] = old
@@ -270,6 +285,14 @@ def make_stub(callee, caller_label):
                 cond = b
             if cond is True or (cond is not False and bool(cond)):
                 raise _mark(exc_type("raised by the contract of %s" % callee.target))
+        if callee.functional:
+            c.in_spec += 1
+            try:
+                r = callee.havoc(a)
+            finally:
+                c.in_spec -= 1
+            c.ghost.setdefault(callee.target, []).append((a, r))
+            return r
         c.in_spec += 1
         try:
             r = callee.havoc(a)
@@ -277,7 +300,13 @@ def make_stub(callee, caller_label):
             # snapshots, so that a later in-place update of an argument / the result by the caller cannot
             # change what was assumed
             memo = {}
-            post = callee.ensures(freeze(a, memo), freeze(r, memo))
+            fa = freeze(a, memo)
+            fa.old = fa
+            c.stub_mode += 1
+            try:
+                post = callee.ensures(fa, freeze(r, memo))
+            finally:
+                c.stub_mode -= 1
         finally:
             c.in_spec -= 1
         for name, f in post.items():
@@ -313,7 +342,7 @@ def _engine_fault(exc):
         if type(exc).__name__ in ("NotFittedError",):
             return False
         return True
-    if "/pyvc/" in fn and isinstance(exc, (AttributeError, TypeError, NameError, KeyError, NotImplementedError, AssertionError, RecursionError)):
+    if ("/pyvc/" in fn or "/contracts/" in fn or "/props/" in fn) and isinstance(exc, (AttributeError, TypeError, NameError, KeyError, NotImplementedError, AssertionError, RecursionError)):
         # TypeError / IndexError / ValueError deliberately raised by the prelude to mirror numpy are
         # raised with explicit `raise` statements in pyvc; those carry numpy's message. We only
         # treat *accidental* ones as engine faults: AttributeError etc. are never raised on purpose.
@@ -373,11 +402,23 @@ def verify_path(contract, cfg, c, prop="", replay_hook=None):
     label = contract.target.split(":")[1]
     try:
         default_patches(P, mod)
+        # warnings issued by helpers that live in OTHER verde modules must be recorded too
+        for mname, m in list(sys.modules.items()):
+            if mname.startswith("verde") and m is not mod and m is not None:
+                g = getattr(m, "__dict__", {})
+                if "warnings" in g and not isinstance(g["warnings"], WarningsProxy):
+                    P.set(m, "warnings", WarningsProxy())
+                if "warn" in g and getattr(g["warn"], "__module__", "") == "warnings":
+                    P.set(m, "warn", WarningsProxy().warn)
         for name, obj in contract.prelude:
             P.set(mod, name, obj)
         for name, key in contract.stubs.items():
             callee = REGISTRY[key]
-            P.set(mod, name, make_stub(callee, label))
+            if "." in name:  # method stub: patch the class attribute
+                cname, attr = name.split(".")
+                P.set_attr(getattr(mod, cname), attr, make_stub(callee, label))
+            else:
+                P.set(mod, name, make_stub(callee, label))
         extra = getattr(contract, "patch_modules", None)
         if extra:
             extra(P)
@@ -389,6 +430,7 @@ def verify_path(contract, cfg, c, prop="", replay_hook=None):
         finally:
             c.in_spec -= 1
         a = contract.bind(args, kwargs)
+        a.old = freeze(Args({k: v for k, v in vars(a).items()}))  # pre-state snapshot of the arguments
         out.args = (args, kwargs)
         c.in_spec += 1
         try:
